@@ -40,7 +40,12 @@ func newPickEnv(c *Ctx) *pickEnv {
 		case "holding":
 			fmt.Fprintf(w, "W%s", parts[0])
 		case "servererror":
-			w.WriteHeader(503)
+			// the failing blob: 5xx at the ware's own address, 404 for anything the server does not know
+			if len(parts) == 2 || (len(parts) == 5 && parts[4] == pickHash) {
+				w.WriteHeader(503)
+			} else {
+				w.WriteHeader(404)
+			}
 		default:
 			w.WriteHeader(404)
 		}
